@@ -44,7 +44,7 @@ func (interleave) Runs(tier string) int64 {
 	if tier == "thorough" {
 		return 2000000
 	}
-	return 5000
+	return 30000
 }
 
 func (interleave) Meta() core.EngineMeta {
